@@ -585,6 +585,8 @@ type clientOutcome struct {
 	hasMsg  bool
 	ends    int // number of terminal dispositions seen
 	trailer http.Header
+	// httpRejected: refused with a bare HTTP status before dispatch
+	httpRejected bool
 }
 
 func splitTrailerBlock(blk []byte) (http.Header, bool) {
@@ -670,7 +672,7 @@ func jsonErrorFields(b []byte) (code uint32, msg string, ok bool) {
 }
 
 // refParseClientResponse decodes what the client received, by the client's own protocol rules.
-func refParseClientResponse(cfg *pipeCfg, sink *fakeSink) clientOutcome {
+func refParseClientResponse(cfg *pipeCfg, sink *fakeSink, dispatched bool) clientOutcome {
 	o := clientOutcome{valid: true}
 	fail := func(why string) clientOutcome {
 		o.valid = false
@@ -683,6 +685,13 @@ func refParseClientResponse(cfg *pipeCfg, sink *fakeSink) clientOutcome {
 	h := sink.headSnap
 	ct := h.Get("Content-Type")
 	codec := cfg.clientCodec
+	if !dispatched && sink.status != 200 && strings.HasPrefix(ct, "text/plain") {
+		// request rejected before any protocol engagement: a plain HTTP error, mapped by the HTTP->RPC table
+		o.ends = 1
+		o.httpRejected = true
+		o.code = uint32(refStatusToRPC(sink.status))
+		return o
+	}
 	switch cfg.client {
 	case cfGRPC, cfGRPCWeb, cfConnectStream:
 		prefix := "application/grpc+"
